@@ -57,6 +57,8 @@ structure Fixes where
   f112c : Bool := false
   /-- F106d: cup() and decstbm() use the first two parameters of a longer list (they ignored the sequence). -/
   f106d : Bool := false
+  /-- F106e (c03d8ee): ris() also resets the top margin, the pen and both saved cursors. -/
+  f106e : Bool := false
   deriving DecidableEq, Repr, Inhabited
 
 /-- The code before any repair. -/
@@ -65,7 +67,7 @@ def Fixes.none : Fixes := {}
 def Fixes.current : Fixes :=
   { f18 := true, f15 := true, f17 := true, f16 := true, f105a := true, f105b := true, f105c := true,
     f105d := true, f19 := true, f105e := true, f105f := true, f21 := true, f22 := true, f54 := true,
-    f106b := true, f106a := true, f106c := true, f112c := true, f106d := true }
+    f106b := true, f106a := true, f106c := true, f112c := true, f106d := true, f106e := true }
 
 abbrev G := List Nat          -- a grapheme: its UTF-8 bytes
 
